@@ -143,6 +143,15 @@ func (nd *Node) GossipUnicast(dst mesh.PeerName, msg []byte) error {
 	return nil
 }
 
+// TakeUnicasts returns and forgets the unicasts recorded so far.
+func (nd *Node) TakeUnicasts() []Msg {
+	nd.net.mu.Lock()
+	defer nd.net.mu.Unlock()
+	u := nd.Unicasts
+	nd.Unicasts = nil
+	return u
+}
+
 // GossipBroadcast implements mesh.Gossip: relayBroadcast(ourself, update). In a full mesh the broadcast tree of a
 // source reaches every other node in one hop.
 func (nd *Node) GossipBroadcast(update mesh.GossipData) {
